@@ -45,6 +45,12 @@ def build(case):
             # -999.25), the documented condition for leaving dates in one piece
             k = 1 + case["dates"] % (c - 1)
             toks[k] = "-999.25" if (r >= 2 and i == r // 2) else "2020-%02d-%02d" % (i % 12 + 1, k % 28 + 1)
+        if case.get("empty_col") is not None and c >= 2:
+            toks[1 + case["empty_col"] % (c - 1)] = ""  # a cell that is empty on every line (`1.001,,1.003`) is still a column
+        if case.get("quoted") and c >= 3:
+            # two quoted text cells on one line (blanks inside): each is one value of its own column
+            toks[1] = '"r%d a"' % (i + 1)
+            toks[c - 1] = '"r%d z"' % (i + 1)
         if case.get("index") == "text":
             toks[0] = "T%02d" % (i + 1)  # a time-stamp-like text index: the other curves are still float columns
         if not wrap:
@@ -169,6 +175,10 @@ def grid(tier):
                                 yield dict(d=d, c=c, r=r, engine=engine, sign=sign, names="numeric")
                             if r <= 3:
                                 yield dict(d=d, c=c, r=r, engine=engine, sign=sign, index="text")
+                    if c >= 2:
+                        yield dict(d=d, c=c, r=r, engine=engine, sign="pos", dlm="COMMA", empty_col=(d + r))
+                    if c >= 3:
+                        yield dict(d=d, c=c, r=r, engine=engine, sign="pos", quoted=True)
                     if c >= 2 and r >= 2:
                         yield dict(d=d, c=c, r=r, engine=engine, sign="pos", dates=(d + r))
                     if c >= 2:
